@@ -1115,7 +1115,8 @@ type attributeCacheKey struct {
 
 // attributeCacheEntry represents a cached attribute lookup result
 type attributeCacheEntry struct {
-	fieldIndex  int       // Index of the field (-1 if not a field)
+	fieldIndex  int       // Index of the field's first path element (-1 if not a field)
+	fieldPath   []int     // Full index path of the field (several elements for a field promoted from an embedded struct)
 	isMethod    bool      // Whether this is a method
 	methodIndex int       // Index of the method (-1 if not a method)
 	ptrMethod   bool      // Whether the method is on the pointer type
@@ -1289,6 +1290,19 @@ func (ctx *RenderContext) getAttribute(obj interface{}, attr string) (interface{
 		objValue = objValue.Elem()
 	}
 
+	// Maps with string keys (map[string]string, map[string]int, named map types,
+	// pointers to maps) answer attribute access like map[string]interface{} does
+	if objValue.Kind() == reflect.Map {
+		if objValue.Type().Key().Kind() != reflect.String {
+			return nil, nil
+		}
+		value := objValue.MapIndex(reflect.ValueOf(attr).Convert(objValue.Type().Key()))
+		if value.IsValid() && value.CanInterface() {
+			return value.Interface(), nil
+		}
+		return nil, nil
+	}
+
 	// Only use caching for struct types
 	if objValue.Kind() != reflect.Struct {
 		// Instead of returning an error for non-struct types, return nil
@@ -1346,10 +1360,11 @@ func (ctx *RenderContext) getAttribute(obj interface{}, attr string) (interface{
 				accessCount: 1,
 			}
 
-			// Look for a field
+			// Look for an exported field, including fields promoted from embedded structs
 			field, found := objType.FieldByName(attr)
-			if found {
-				entry.fieldIndex = field.Index[0] // Assuming single-level field access
+			if found && field.PkgPath == "" {
+				entry.fieldIndex = field.Index[0]
+				entry.fieldPath = field.Index
 			}
 
 			// Look for a method on the value
@@ -1378,8 +1393,12 @@ func (ctx *RenderContext) getAttribute(obj interface{}, attr string) (interface{
 	// Use the cached lookup information to get the attribute
 
 	// Try field access first
-	if entry.fieldIndex >= 0 {
-		field := objValue.Field(entry.fieldIndex)
+	if entry.fieldIndex >= 0 && len(entry.fieldPath) > 0 {
+		// Follow the whole index path; a nil embedded pointer on the way means there is no value
+		field, err := objValue.FieldByIndexErr(entry.fieldPath)
+		if err != nil {
+			return nil, nil
+		}
 		if field.IsValid() && field.CanInterface() {
 			return field.Interface(), nil
 		}
